@@ -1,1 +1,183 @@
+//! C13 - Timestamps: range gate, unix round trip, order, checked arithmetic (windows), parse/format shapes.
+use crate::sym::{any, assume};
+use identity_core::common::{Duration, Timestamp};
 
+pub const MIN: i64 = -62167219200; // 0000-01-01T00:00:00Z
+pub const MAX: i64 = 253402300799; // 9999-12-31T23:59:59Z
+const W: i64 = 100_000;
+const WA: i64 = 60;
+
+fn in_window(s: i64, centre: i64) -> bool {
+  s >= centre - W && s <= centre + W
+}
+
+/// unix seconds -> Timestamp without dropping the error value (drop glue of the error chain explodes under CBMC)
+fn from_unix(s: i64) -> Option<Timestamp> {
+  match Timestamp::from_unix(s) {
+    Ok(t) => Some(t),
+    Err(e) => {
+      core::mem::forget(e);
+      None
+    }
+  }
+}
+
+fn gate_at(centre: i64) {
+  let s: i64 = any();
+  assume(in_window(s, centre));
+  let t = from_unix(s);
+  assert_eq!(t.is_some(), (MIN..=MAX).contains(&s));
+  if let Some(t) = t {
+    assert_eq!(t.to_unix(), s);
+  }
+  sym_cover!(s == MIN - 1 || s == MAX + 1 || s == 1, "first rejected / small value reached");
+}
+pub fn gate_low() {
+  gate_at(MIN)
+}
+pub fn gate_high() {
+  gate_at(MAX)
+}
+pub fn gate_zero() {
+  gate_at(0)
+}
+proof!(c13_gate_low, unwind = 2, gate_low);
+proof!(c13_gate_high, unwind = 2, gate_high);
+proof!(c13_gate_zero, unwind = 2, gate_zero);
+
+fn order_at(centre: i64) {
+  let (a, b): (i64, i64) = (any(), any());
+  assume(in_window(a, centre) && in_window(b, centre));
+  assume((MIN..=MAX).contains(&a) && (MIN..=MAX).contains(&b));
+  let (ta, tb) = (from_unix(a).unwrap(), from_unix(b).unwrap());
+  assert_eq!(ta.cmp(&tb), a.cmp(&b));
+  assert_eq!(ta == tb, a == b);
+  sym_cover!(a < b, "strictly ordered pair");
+}
+pub fn order_low() {
+  order_at(MIN)
+}
+pub fn order_high() {
+  order_at(MAX)
+}
+proof!(c13_order_low, unwind = 2, order_low);
+proof!(c13_order_high, unwind = 2, order_high);
+
+/// checked_add / checked_sub = integer arithmetic on seconds, None exactly when the result leaves the range.
+fn arith_at(centre: i64, add: bool) {
+  let s: i64 = any();
+  let d: u32 = any();
+  assume(s >= centre - WA && s <= centre + WA && (MIN..=MAX).contains(&s));
+  assume(d <= 2 * WA as u32);
+  let t = from_unix(s).unwrap();
+  let r = if add { t.checked_add(Duration::seconds(d)) } else { t.checked_sub(Duration::seconds(d)) };
+  let want = if add { s + d as i64 } else { s - d as i64 };
+  assert_eq!(r.is_some(), (MIN..=MAX).contains(&want));
+  if let Some(r) = r {
+    assert_eq!(r.to_unix(), want);
+  }
+  sym_cover!(!(MIN..=MAX).contains(&want), "result leaves the range");
+  sym_cover!((MIN..=MAX).contains(&want) && d > 0, "result stays in range");
+}
+pub fn add_high() {
+  arith_at(MAX, true)
+}
+pub fn sub_low() {
+  arith_at(MIN, false)
+}
+pub fn add_zero() {
+  arith_at(0, true)
+}
+proof!(c13_add_high, unwind = 2, add_high);
+proof!(c13_sub_low, unwind = 2, sub_low);
+proof!(c13_add_zero, unwind = 2, add_zero);
+
+// ---- parse / format shapes ----------------------------------------------------------------------------------------
+
+fn parse(s: &str) -> Option<Timestamp> {
+  match Timestamp::parse(s) {
+    Ok(t) => Some(t),
+    Err(e) => {
+      core::mem::forget(e);
+      None
+    }
+  }
+}
+
+/// `<date-time at a range end>` followed by a numeric offset `±0h:00` with sign and hour digit symbolic.
+/// Accepted => inside the range and equal to the instant denoted (base - offset); never a panic.
+fn offset_shape(template: &[u8; 25], base_unix: i64) {
+  let mut buf = *template;
+  let sign: u8 = any();
+  let h: u8 = any();
+  assume(sign == b'+' || sign == b'-');
+  assume(h >= b'0' && h <= b'9');
+  buf[19] = sign;
+  buf[21] = h;
+  let s = core::str::from_utf8(&buf).unwrap();
+  let hours = (h - b'0') as i64;
+  let denoted = if sign == b'+' { base_unix - hours * 3600 } else { base_unix + hours * 3600 };
+  match parse(s) {
+    Some(t) => {
+      assert!((MIN..=MAX).contains(&t.to_unix()));
+      assert_eq!(t.to_unix(), denoted);
+    }
+    None => {
+      // a string denoting an instant inside the range must be accepted
+      assert!(!(MIN..=MAX).contains(&denoted));
+    }
+  }
+  sym_cover!(!(MIN..=MAX).contains(&denoted), "offset pushes the instant out of range");
+  sym_cover!((MIN..=MAX).contains(&denoted), "offset keeps the instant in range");
+}
+pub fn parse_offset_high() {
+  offset_shape(b"9999-12-31T23:59:59+00:00", MAX)
+}
+pub fn parse_offset_low() {
+  offset_shape(b"0000-01-01T00:00:00+00:00", MIN)
+}
+proof!(c13_parse_offset_high, unwind = 27, parse_offset_high);
+proof!(c13_parse_offset_low, unwind = 27, parse_offset_low);
+
+/// format-then-parse is the identity and formatting never panics (window at both range ends)
+fn format_roundtrip_at(centre: i64) {
+  let s: i64 = any();
+  assume(s >= centre - 2 && s <= centre + 2 && (MIN..=MAX).contains(&s));
+  let t = from_unix(s).unwrap();
+  let text = t.to_rfc3339();
+  assert_eq!(text.len(), 20);
+  let back = parse(&text);
+  assert!(back == Some(t));
+  core::mem::forget(text);
+}
+pub fn format_roundtrip_high() {
+  format_roundtrip_at(MAX)
+}
+pub fn format_roundtrip_low() {
+  format_roundtrip_at(MIN)
+}
+proof!(c13_format_roundtrip_high, unwind = 27, format_roundtrip_high);
+proof!(c13_format_roundtrip_low, unwind = 27, format_roundtrip_low);
+
+pub fn twin_must_fail() {
+  let s: i64 = any();
+  assume(in_window(s, MAX));
+  assert!(from_unix(s).is_some());
+}
+proof!(c13_twin_must_fail, unwind = 2, twin_must_fail);
+
+pub const BODIES: &[(&str, fn())] = &[
+  ("c13_gate_low", gate_low),
+  ("c13_gate_high", gate_high),
+  ("c13_gate_zero", gate_zero),
+  ("c13_order_low", order_low),
+  ("c13_order_high", order_high),
+  ("c13_add_high", add_high),
+  ("c13_sub_low", sub_low),
+  ("c13_add_zero", add_zero),
+  ("c13_parse_offset_high", parse_offset_high),
+  ("c13_parse_offset_low", parse_offset_low),
+  ("c13_format_roundtrip_high", format_roundtrip_high),
+  ("c13_format_roundtrip_low", format_roundtrip_low),
+  ("c13_twin_must_fail", twin_must_fail),
+];
